@@ -618,6 +618,9 @@ func (d *cborDecDriver[T]) decodeTime(xtag uint64) (t time.Time) {
 		halt.onerror(err)
 	case 1:
 		f1, f2 := math.Modf(d.DecodeFloat64())
+		if !(f1 >= -(1<<62) && f1 <= 1<<62) { // also NaN, Inf: int64(f1) would be platform-defined garbage
+			halt.errorf("epoch seconds out of range for time.Time: %v", f1)
+		}
 		t = time.Unix(int64(f1), int64(f2*1e9))
 	default:
 		halt.errorf("invalid tag for time.Time - expecting 0 or 1, got 0x%x", xtag)
